@@ -1,7 +1,7 @@
 (* One entry point for the correspondence check: a request (an S-expression naming a stage and its input) is
    decoded, run through the model, and the observable encoded back.  Used extracted (driver/) and inside Coq. *)
 From Coq Require Import List String Ascii Bool NArith ZArith.
-From Yae Require Import Base.Sexp Model.Ty Gen.Generated Model.Unify Model.Lexer Model.Literal Model.Cst Model.Pratt Model.Desugar Model.Check Model.Num Model.Val Model.Render Model.Builtins Model.Eval Model.VM Model.Verifier Model.Sql Model.Debug Model.Api.
+From Yae Require Import Base.Sexp Model.Ty Gen.Generated Model.Unify Model.Lexer Model.Literal Model.Cst Model.Pratt Model.Desugar Model.Check Model.Num Model.Val Model.Render Model.Builtins Model.Eval Model.VM Model.Verifier Model.Sql Model.Debug Model.Api Model.Conv.
 Import ListNotations.
 Open Scope string_scope.
 
@@ -348,6 +348,21 @@ Definition run_apieval (args : list sexp) : sexp :=
   | _ => bad
   end.
 
+(* (conv gty gv): ValOf, TypeOf, TypeEnvOf, ValEnvOf of one host value *)
+Definition run_conv (args : list sexp) : sexp :=
+  match args with
+  | [t; v] =>
+      match dec_gty t, dec_gv v with
+      | Some t', Some v' =>
+          L [eOpt (fun x => enc_val (canon_val sort_entries x)) (ValOf ops t' v');
+             eOpt enc_ty (TypeOf ops t' v');
+             eOpt (fun l => L (map (fun nt => L [eName (fst nt); enc_ty (snd nt)]) (sort_kv l))) (TypeEnvOf ops t' v');
+             eOpt (fun l => L (map (fun nv => L [eName (fst nv); enc_val (canon_val sort_entries (snd nv))]) (sort_kv l))) (ValEnvOf ops t' v')]
+      | _, _ => bad
+      end
+  | _ => bad
+  end.
+
 Definition dispatch (req : sexp) : sexp :=
   match req with
   | L (A tag :: args) =>
@@ -374,6 +389,7 @@ Definition dispatch (req : sexp) : sexp :=
       else if tag =? "sql" then run_sql args
       else if tag =? "debugsrc" then run_debugsrc args
       else if tag =? "apieval" then run_apieval args
+      else if tag =? "conv" then run_conv args
       else bad
   | _ => bad
   end.
